@@ -74,6 +74,12 @@ func CopyTree(src, dst string, withTests bool) error {
 		return err
 	}
 	for _, e := range ents {
+		if e.IsDir() && e.Name() != "examples" && e.Name() != ".git" && e.Name() != "simrt" && !strings.HasPrefix(e.Name(), ".") {
+			// packages below the root (e.g. internal/...) are copied as they are; only
+			// the root package is woven
+			copyDirGo(filepath.Join(src, e.Name()), filepath.Join(dst, e.Name()), withTests)
+			continue
+		}
 		if e.IsDir() {
 			// the library's tests glob its examples directory
 			if withTests && e.Name() == "examples" {
@@ -107,6 +113,27 @@ func CopyTree(src, dst string, withTests bool) error {
 		}
 	}
 	return nil
+}
+
+func copyDirGo(src, dst string, withTests bool) {
+	ents, err := ioutil.ReadDir(src)
+	if err != nil {
+		return
+	}
+	for _, e := range ents {
+		if e.IsDir() {
+			copyDirGo(filepath.Join(src, e.Name()), filepath.Join(dst, e.Name()), withTests)
+			continue
+		}
+		n := e.Name()
+		if !strings.HasSuffix(n, ".go") || (strings.HasSuffix(n, "_test.go") && !withTests) {
+			continue
+		}
+		if b, err := ioutil.ReadFile(filepath.Join(src, n)); err == nil {
+			os.MkdirAll(dst, 0755)
+			ioutil.WriteFile(filepath.Join(dst, n), b, 0644)
+		}
+	}
 }
 
 // CopySimrt copies the simrt package sources into dst/simrt.
